@@ -247,8 +247,9 @@ def judge(prop, r, script, outcomes, h, label=''):
             break
         else:
             # message cut short by the peer
-            lenient = ref.error == 'truncated-trailer' or (endkind == 'rst' and ref.framing == 'close') or \
-                (endkind == 'rst' and ref.error == 'incomplete')
+            # (a cut inside the trailer section - after the last chunk, before the closing empty line - is a message cut
+            # short like any other: the trailer fields, part of the message, are incomplete)
+            lenient = (endkind == 'rst' and ref.framing == 'close') or (endkind == 'rst' and ref.error == 'incomplete')
             if o.get('ok') and not lenient and prop == 'C08':
                 r.violate(prop, 'truncated-accepted', '%s:%s' % (shape, ref.error),
                           'exchange %d %s: message truncated (%s) but reported as success with %d body bytes%s'
